@@ -331,4 +331,27 @@ func init() {
 			return jobs
 		},
 	})
+	register(&PropSpec{
+		ID: "C04", Level: "exploration",
+		Rule:        "2..16 client goroutines issue set / delete / get / mem-only get through HStore on 2..8 shared keys over 1..3 buckets while harness-driven equivalents of the Flusher and HintDumper loop bodies run and tiny data-file / hint-split limits force rotations; every operation is recorded at the API boundary with invocation/response ticks of one global atomic counter, values are self-describing (key, writer, sequence, length, regenerable bytes) and freed C buffers are poisoned; per key the history is checked by (a) version rules (distinct dense versions, real-time order of writes, a read returns exactly the value of the write whose version it reports, no read from the future, no stale read, monotone reads, final read = highest version) and (b) porcupine v1.3.0 with a 30-line sequential model; schedule reach = seeded perturbation (yield / short sleep) at the store's hook points plus 8 deterministic park/release orderings; the same histories run under the race detector (reports classified by racing source line) and AddressSanitizer. distinct = schedule signatures (hash of the global (role, hook point) event sequence) + targeted orderings",
+		Assumptions: []string{"the Go scheduler is not controlled: random-schedule histories are statistical", "races on C memory are visible only through asan and poison-on-free, not the race detector", "check_vhash off; concurrent incr excluded by the property"},
+		ReplayReps:  20,
+		Plan: func(tier string, seed uint64) []Job {
+			var jobs []Job
+			np, hp, nr, hr, na, ha := 8, 16, 3, 8, 2, 8
+			if tier == "thorough" {
+				np, hp, nr, hr, na, ha = 28, 140, 10, 80, 6, 70
+			}
+			for i := 0; i < np; i++ {
+				jobs = append(jobs, Job{Variant: "plain", Mode: "db.c04", Args: js(map[string]interface{}{"Histories": hp, "Level": 1 + i%2, "Targeted": i == 0})})
+			}
+			for i := 0; i < nr; i++ {
+				jobs = append(jobs, Job{Variant: "race", Mode: "db.c04", Args: js(map[string]interface{}{"Histories": hr, "Level": 1 + i%2, "Targeted": i == 0})})
+			}
+			for i := 0; i < na; i++ {
+				jobs = append(jobs, Job{Variant: "asan", Mode: "db.c04", Args: js(map[string]interface{}{"Histories": ha, "Level": 1, "Targeted": i == 0})})
+			}
+			return jobs
+		},
+	})
 }
